@@ -23,7 +23,7 @@ ASSUMPTIONS = [
 ]
 SIGNATURES = ()
 
-METRICS = ['a', 'b', '', 'c', 'd;z=1;b=2', 'e;x']     # '' is legal and falsy; tags in non-canonical order / not parsable as tags: cached and queried as received
+METRICS = ['a', 'cpu.%idle', '', 'c%d', 'd;z=1;b=2', 'e;x']     # '' is legal and falsy; '%' is legal in names; tags in non-canonical order / not parsable as tags: cached and queried as received
 
 
 @st.composite
